@@ -1754,6 +1754,10 @@ namespace awkward {
         throw std::invalid_argument(validity_error + FILENAME(__LINE__));
       }
       NumpyArray* rawcontent = dynamic_cast<NumpyArray*>(content_.get());
+      // the kernel walks the characters as one block of bytes: a strided or
+      // reversed view of a larger buffer has to be made contiguous first
+      NumpyArray contiguouscontent = rawcontent->contiguous();
+      rawcontent = &contiguouscontent;
 
       Index64 tocarry(parents.length());
       struct Error err = kernel::ListOffsetArray_argsort_strings(
@@ -1938,6 +1942,10 @@ namespace awkward {
         throw std::invalid_argument(validity_error + FILENAME(__LINE__));
       }
       NumpyArray* rawcontent = dynamic_cast<NumpyArray*>(content_.get());
+      // the kernel walks the characters as one block of bytes: a strided or
+      // reversed view of a larger buffer has to be made contiguous first
+      NumpyArray contiguouscontent = rawcontent->contiguous();
+      rawcontent = &contiguouscontent;
 
       Index64 output(parents.length());
       struct Error err = kernel::ListOffsetArray_argsort_strings(
